@@ -82,13 +82,13 @@ def esc_model(names_q):
 def build_cases(ctx):
     rng = ctx.rng
     quick = ctx.tier == 'quick'
-    n_per = {'table': 900, 'direct': 200, 'csv': 700, 'csvfile': 160, 'pandas': 120, 'sqlite': 120} if quick else \
-            {'table': 50000, 'direct': 15000, 'csv': 60000, 'csvfile': 10000, 'pandas': 8000, 'sqlite': 8000}
+    n_per = {'table': 900, 'direct': 200, 'csv': 700, 'csvfile': 160, 'pandas': 120, 'pandas_direct': 80, 'sqlite': 120} if quick else \
+            {'table': 50000, 'direct': 15000, 'csv': 60000, 'csvfile': 10000, 'pandas': 8000, 'pandas_direct': 5000, 'sqlite': 8000}
     protos = []
     for kind, n in n_per.items():
         for _ in range(n):
-            if kind == 'direct':
-                names = gen_names(rng, idents=rng.random() < 0.9)
+            if kind in ('direct', 'pandas_direct'):
+                names = gen_names(rng, idents=True if kind == 'pandas_direct' else rng.random() < 0.9)
                 if rng.random() < 0.3:
                     # column names that are spelled like positional variables (a3, b1) at some OTHER position: the name wins
                     for j in range(len(names)):
@@ -106,14 +106,14 @@ def build_cases(ctx):
             else:
                 names = gen_names(rng)
             rows = gen_rows(rng, len(names), ragged=kind in ('table', 'csv') and rng.random() < 0.2)
-            if kind in ('pandas', 'sqlite') and not rows:
+            if kind in ('pandas', 'pandas_direct', 'sqlite') and not rows:
                 rows = [[rng.choice(SAFE_VALUES) for _ in names]]
             i = rng.randrange(len(names))
             styles = ['dq', 'sq']
             if is_ident(names[i]) and not keyword.iskeyword(names[i]):
                 styles += ['attr', 'attr']
-            style = rng.choice(styles) if kind != 'direct' else 'bare'
-            if kind not in ('csv', 'csvfile') and kind != 'direct' and rng.random() < 0.06:
+            style = rng.choice(styles) if kind not in ('direct', 'pandas_direct') else 'bare'
+            if kind not in ('csv', 'csvfile', 'direct', 'pandas_direct') and rng.random() < 0.06:
                 names_arg = None        # no header at all: the variable must be unbound
             else:
                 names_arg = names
@@ -139,6 +139,8 @@ def build_cases(ctx):
             c.update(kind=src, records=recs, mkind=0, names=None)
         elif src == 'direct':
             c.update(kind='table', records=p['rows'], names=p['names_arg'], normalize=False, mkind=2)
+        elif src == 'pandas_direct':
+            c.update(kind='pandas', records=p['rows'], names=p['names'], normalize=False, mkind=2)
         elif src == 'table':
             c.update(kind='table', records=p['rows'], names=p['names_arg'], normalize=True, mkind=1)
         else:
